@@ -553,7 +553,11 @@ def setop_case(draw):
     ids = [(n, t) for n, (r, t) in comps.items() if r == "I"]
     structs, rows = {}, {}
     for d in range(1, k + 1):
-        structs["DS_%d" % d] = dict(comps)
+        cd = dict(comps)
+        if d > 1 and draw(st.integers(0, 2)) == 0:  # same components declared in a different order
+            items = list(comps.items())
+            cd = dict(draw(st.permutations(items)))
+        structs["DS_%d" % d] = cd
         keys = draw(st.lists(st.tuples(*[st.sampled_from(ID_VALUES[n]) for n, _ in ids]), min_size=0, max_size=6, unique=True))
         rr = []
         for key in keys:
@@ -566,12 +570,17 @@ def setop_case(draw):
     ci = dict(structs=structs, rows=rows, family=fam)
     op = draw(st.sampled_from(["union", "union", "intersect", "intersect", "setdiff", "symdiff"]))
     n = k if op in ("union", "intersect") else 2
-    names = draw(st.permutations(sorted(structs)))[:max(2, n)]
+    names = list(draw(st.permutations(sorted(structs)))[:max(2, n)])
+    if draw(st.integers(0, 5)) == 0:
+        names[1] = names[0]  # the same dataset in two operand positions
     operands = []
     for nm in names:
         o = ("ds", nm)
-        if draw(st.integers(0, 3)) == 0:
+        c = draw(st.integers(0, 7))
+        if c == 0:
             o = ("clause", "filter", o, ("bin", "<>", ("comp", ids[0][0]), ("lit", ids[0][1], ID_VALUES[ids[0][0]][0])))
+        elif c == 1:  # nested set operator as operand
+            o = ("setop", draw(st.sampled_from(["union", "intersect", "setdiff", "symdiff"])), [o, ("ds", draw(st.sampled_from(sorted(structs))))])
         operands.append(o)
     if op in ("setdiff", "symdiff"):
         operands = operands[:2]
